@@ -25,68 +25,69 @@ def MacInjective (mac : Digest → Bytes → Bytes → Bytes) (d : Digest) : Pro
 `_` — and `sig` is the MAC, under the reader's secret and the digest named by the label (the
 configured digest when there is no label), of `key ‖ p` for the key being read.  No assumption on
 the MAC, the pickler or the blob. -/
-theorem unpickle_only_if_mac_verifies (cfg : Cfg α) (s : Signer) (hs : cfg.signer = some s)
-    (key : Bytes) (w : Val α) (same : Bool) (p : Bytes) (h : preLoads cfg key w same = .loads p) :
+theorem unpickle_only_if_mac_verifies (cfg : Cfg α) (reg : Registry α) (s : Signer) (hs : cfg.signer = some s)
+    (key : Bytes) (w : Val α) (same : Bool) (p : Bytes) (h : preLoads cfg reg key w same = .loads p) :
     VerifiedPayload cfg s key w p :=
-  verified_of_check cfg s hs key w same p (Or.inl h)
+  verified_of_check cfg reg s hs key w same p (Or.inl h)
 
 /-- the same for the custom decoders: a registered decoder is run on `p` only through a verified MAC -/
-theorem custom_decode_only_if_mac_verifies (cfg : Cfg α) (s : Signer) (hs : cfg.signer = some s)
-    (key : Bytes) (w : Val α) (same : Bool) (p : Bytes) (h : preLoads cfg key w same = .custom p) :
+theorem custom_decode_only_if_mac_verifies (cfg : Cfg α) (reg : Registry α) (s : Signer) (hs : cfg.signer = some s)
+    (key : Bytes) (w : Val α) (same : Bool) (p : Bytes) (h : preLoads cfg reg key w same = .custom p) :
     VerifiedPayload cfg s key w p :=
-  verified_of_check cfg s hs key w same p (Or.inr h)
+  verified_of_check cfg reg s hs key w same p (Or.inr h)
 
 /-- **`loads` is consulted at that payload and nowhere else**: replacing the unpickler by any other
 function that agrees with it on the single verified payload (if there is one) does not change the
 result of `decode`.  In particular the result for a blob whose MAC does not verify is independent
 of the unpickler. -/
-theorem decode_consults_loads_only_at_verified (cfg : Cfg α) (loads' : Bytes → Loaded α)
+theorem decode_consults_loads_only_at_verified (cfg : Cfg α) (reg : Registry α) (loads' : Bytes → Loaded α)
     (key : Bytes) (w : Val α) (same : Bool)
-    (hagree : ∀ p, preLoads cfg key w same = .loads p → loads' p = cfg.pickler.loads p) :
-    decode { cfg with pickler := { cfg.pickler with loads := loads' } } key w same = decode cfg key w same := by
-  have hpre : preLoads { cfg with pickler := { cfg.pickler with loads := loads' } } key w same
-      = preLoads cfg key w same := rfl
+    (hagree : ∀ p, preLoads cfg reg key w same = .loads p → loads' p = cfg.pickler.loads p) :
+    decode { cfg with pickler := { cfg.pickler with loads := loads' } } reg key w same = decode cfg reg key w same := by
+  have hpre : preLoads { cfg with pickler := { cfg.pickler with loads := loads' } } reg key w same
+      = preLoads cfg reg key w same := rfl
   unfold decode
   rw [hpre]
-  cases hp : preLoads cfg key w same with
-  | loads p => simp only; rw [hagree p hp]; rfl
+  cases hp : preLoads cfg reg key w same with
+  | loads p => simp only; rw [hagree p hp]
   | _ => rfl
 
 /-- **Where a value can come from** when a secret is configured and the store holds bytes: either
-the blob is a bare digit string (integers are stored unsigned, by design: `b"123"` reads as `123`),
+the blob is a bare digit string, possibly with a leading `-` (integers are stored unsigned, by design: `b"123"`
+reads as `123`, `b"-5"` as `-5`),
 or the MAC verified (`preLoads = loads p` or `custom p`, to which `unpickle_only_if_mac_verifies` /
 `custom_decode_only_if_mac_verifies` apply). -/
-theorem value_only_if (cfg : Cfg α) (key b : Bytes) (v : Val α)
-    (h : decode cfg key (.bytes b) false = .value v) :
-    (isDigits b = true ∧ v = .int (digitsVal b)) ∨
-    (∃ p, preLoads cfg key (.bytes b) false = .loads p ∧ postLoads cfg p (cfg.pickler.loads p) = .value v) ∨
-    (∃ p, preLoads cfg key (.bytes b) false = .custom p ∧ customDecode cfg p = .value v) := by
+theorem value_only_if (cfg : Cfg α) (reg : Registry α) (key b : Bytes) (v : Val α)
+    (h : decode cfg reg key (.bytes b) false = .value v) :
+    (isIntLit b = true ∧ v = .int (intVal b)) ∨
+    (∃ p, preLoads cfg reg key (.bytes b) false = .loads p ∧ postLoads reg p (cfg.pickler.loads p) = .value v) ∨
+    (∃ p, preLoads cfg reg key (.bytes b) false = .custom p ∧ customDecode reg p = .value v) := by
   unfold decode at h
-  cases hp : preLoads cfg key (.bytes b) false with
+  cases hp : preLoads cfg reg key (.bytes b) false with
   | same => simp [hp] at h
   | dflt => simp [hp] at h
   | unsecure => simp [hp] at h
   | pass v' =>
     unfold preLoads at hp
     simp only [Bool.false_eq_true, if_false] at hp
-    by_cases hd : isDigits b = true
+    by_cases hd : isIntLit b = true
     · simp [hd] at hp
     · cases hc : checkSign cfg key b with
       | missing => simp [hd, hc] at hp
       | unsecure => simp [hd, hc] at hp
-      | ok p => by_cases hce : isCustomEncoded cfg p = true <;> simp [hd, hc, hce] at hp
+      | ok p => by_cases hce : isCustomEncoded reg p = true <;> simp [hd, hc, hce] at hp
   | digit n =>
     left
     simp [hp] at h
     unfold preLoads at hp
     simp only [Bool.false_eq_true, if_false] at hp
-    by_cases hd : isDigits b = true
+    by_cases hd : isIntLit b = true
     · simp [hd] at hp
       exact ⟨hd, by rw [← h, hp]⟩
     · cases hc : checkSign cfg key b with
       | missing => simp [hd, hc] at hp
       | unsecure => simp [hd, hc] at hp
-      | ok p => by_cases hce : isCustomEncoded cfg p = true <;> simp [hd, hc, hce] at hp
+      | ok p => by_cases hce : isCustomEncoded reg p = true <;> simp [hd, hc, hce] at hp
   | loads p =>
     right; left
     simp [hp] at h
@@ -167,6 +168,37 @@ theorem altered_signature_rejected (cfg : Cfg α) (s : Signer) (d : Digest) (key
   · rename_i hm; exact absurd hm.symm hne
   · rfl
 
+/-- **No tolerance around the signature.**  A header in which the genuine signature of `key ‖ payload` is
+preceded and/or followed by ANY extra bytes — a trailing `\n` (which a regular expression anchored with `$`
+lets through), `\r\n`, blanks that a `strip()` would drop, a `0x` or zeroes that an integer parse would ignore,
+NUL, … — is rejected as unsafe, for every MAC (no idealisation needed: the comparison is equality of byte
+strings, and the padded header is longer than the MAC). -/
+theorem padded_signature_rejected (cfg : Cfg α) (s : Signer) (d : Digest) (key pre post rest : Bytes)
+    (hpad : pre ≠ [] ∨ post ≠ [])
+    (hus : us ∉ pre ++ cfg.mac d s.secret (key ++ rest) ++ post) :
+    checkHash cfg s key (d.label ++ colon :: ((pre ++ cfg.mac d s.secret (key ++ rest) ++ post) ++ us :: rest))
+      = .unsecure := by
+  apply altered_signature_rejected cfg s d key _ rest hus
+  intro e
+  have hl := congrArg List.length e
+  simp only [List.length_append] at hl
+  rcases hpad with h | h
+  · have : pre.length ≠ 0 := fun z => h (List.length_eq_zero_iff.mp z)
+    omega
+  · have : post.length ≠ 0 := fun z => h (List.length_eq_zero_iff.mp z)
+    omega
+
+/-- the same one level up: such a blob never reaches the unpickler or a custom decoder and never yields a
+value — `decode` raises the unsafe-data error (the blob contains `:`: it is not a digit string) -/
+theorem padded_signature_unsecure (cfg : Cfg α) (reg : Registry α) (s : Signer) (hs : cfg.signer = some s)
+    (d : Digest) (key pre post rest : Bytes) (hpad : pre ≠ [] ∨ post ≠ [])
+    (hus : us ∉ pre ++ cfg.mac d s.secret (key ++ rest) ++ post) :
+    decode cfg reg key
+      (.bytes (d.label ++ colon :: ((pre ++ cfg.mac d s.secret (key ++ rest) ++ post) ++ us :: rest))) false
+      = .unsecure := by
+  have h := padded_signature_rejected cfg s d key pre post rest hpad hus
+  simp only [decode, preLoads, isIntLit_with_colon, checkSign, hs, h, Bool.false_eq_true, if_false]
+
 /-- a blob **written with a different secret**: rejected as unsafe -/
 theorem foreign_secret_rejected (cfg : Cfg α) (s : Signer) (d : Digest) (hinj : MacInjective cfg.mac d)
     (secret0 key0 p0 key rest : Bytes) (hus : us ∉ cfg.mac d secret0 (key0 ++ p0))
@@ -225,11 +257,11 @@ theorem d25_residual_is_real (cfg : Cfg α) (s : Signer) (key r p : Bytes)
 /-- **Error family.**  `decode` raises something other than the unsafe-data error only when the
 *unpickler itself* raised an exception outside its `UnpicklingError` class and `AttributeError` —
 and then on a payload whose MAC had verified. -/
-theorem error_family (cfg : Cfg α) (key : Bytes) (w : Val α) (same : Bool)
-    (h : decode cfg key w same = .raised) :
-    ∃ p, preLoads cfg key w same = .loads p ∧ cfg.pickler.loads p = .other := by
+theorem error_family (cfg : Cfg α) (reg : Registry α) (key : Bytes) (w : Val α) (same : Bool)
+    (h : decode cfg reg key w same = .raised) :
+    ∃ p, preLoads cfg reg key w same = .loads p ∧ cfg.pickler.loads p = .other := by
   unfold decode at h
-  cases hp : preLoads cfg key w same with
+  cases hp : preLoads cfg reg key w same with
   | loads p =>
     refine ⟨p, rfl, ?_⟩
     simp only [hp] at h
@@ -263,9 +295,9 @@ theorem error_family (cfg : Cfg α) (key : Bytes) (w : Val α) (same : Bool)
 
 /-- **Every failure of a blob whose MAC does not verify is the unsafe-data error or the default**
 (never a value, never another exception) — whatever the unpickler would do. -/
-theorem unverified_is_unsecure_or_default (cfg : Cfg α) (s : Signer) (hs : cfg.signer = some s)
-    (key b : Bytes) (hnd : isDigits b = false) (hno : ∀ p, checkHash cfg s key b ≠ .ok p) :
-    decode cfg key (.bytes b) false = .dflt ∨ decode cfg key (.bytes b) false = .unsecure := by
+theorem unverified_is_unsecure_or_default (cfg : Cfg α) (reg : Registry α) (s : Signer) (hs : cfg.signer = some s)
+    (key b : Bytes) (hnd : isIntLit b = false) (hno : ∀ p, checkHash cfg s key b ≠ .ok p) :
+    decode cfg reg key (.bytes b) false = .dflt ∨ decode cfg reg key (.bytes b) false = .unsecure := by
   simp only [decode, preLoads, hnd, checkSign, hs, Bool.false_eq_true, if_false]
   cases hc : checkHash cfg s key b with
   | missing => left; rfl
@@ -285,22 +317,28 @@ def toyCfg : Cfg Nat where
                  | [0x80, n] => .ok (.obj n.toNat)
                  | _ => .unpickling }
   typeName := fun _ => [0x4e]
-  registry := fun t => if t = tagBytes then some { enc := fun _ => [], dec := fun b => some (.bytes b) } else none
+
+/-- the registry as it is after `import cashews`: only `bytes` -/
+def toyReg : Registry Nat := Registry.empty.register tagBytes { enc := fun _ => [], dec := fun b => some (.bytes b) }
 
 def toyS : Signer := { secret := [0x73], digest := .md5 }
 
 -- a legitimately signed blob for key "k", payload [0x80, 7] reaches the unpickler …
-example : preLoads toyCfg [0x6b] (.bytes (hashSign toyCfg toyS [0x6b] [0x80, 7])) false = .loads [0x80, 7] := by decide
+example : preLoads toyCfg toyReg [0x6b] (.bytes (hashSign toyCfg toyS [0x6b] [0x80, 7])) false = .loads [0x80, 7] := by decide
 -- … one flipped payload byte does not: unsafe-data error
-example : decode toyCfg [0x6b]
+example : decode toyCfg toyReg [0x6b]
     (.bytes (toyS.digest.label ++ colon :: (genSign toyCfg toyS .md5 [0x6b] [0x80, 7] ++ us :: [0x80, 8]))) false
     = .unsecure := by decide
+-- the byte `\n` between the genuine signature and the `_`: unsafe-data error (a `$`-anchored regex would accept it)
+example : decode toyCfg toyReg [0x6b]
+    (.bytes (toyS.digest.label ++ colon :: ((genSign toyCfg toyS .md5 [0x6b] [0x80, 7] ++ [0x0a]) ++ us :: [0x80, 7]))) false
+    = .unsecure := by decide
 -- truncated before the `_`: the caller's default
-example : decode toyCfg [0x6b] (.bytes (toyS.digest.label ++ colon :: [0x30])) false = .dflt := by decide
+example : decode toyCfg toyReg [0x6b] (.bytes (toyS.digest.label ++ colon :: [0x30])) false = .dflt := by decide
 -- a second ':' in the header (D23): unsafe-data error, not a ValueError
-example : decode toyCfg [0x6b] (.bytes (toyS.digest.label ++ [colon, colon, 0x30, us, 0x31])) false = .unsecure := by decide
+example : decode toyCfg toyReg [0x6b] (.bytes (toyS.digest.label ++ [colon, colon, 0x30, us, 0x31])) false = .unsecure := by decide
 -- D25: the blob signed for key "kbytes:" and payload [0x80,7], read under key "k", returns the raw payload bytes
-example : decode toyCfg [0x6b]
+example : decode toyCfg toyReg [0x6b]
     (.bytes (toyS.digest.label ++ colon ::
       (genSign toyCfg toyS .md5 ([0x6b] ++ (tagBytes ++ [colon])) [0x80, 7] ++ us :: ((tagBytes ++ [colon]) ++ [0x80, 7])))) false
     = .value (.bytes [0x80, 7]) := by decide
